@@ -119,6 +119,14 @@ use crate::socket::transports::IpConfig;
 use crate::socket::transports::TransportConfig;
 pub use crate::{net_report::NetReportConfig, portmapper::PortmapperConfig};
 
+#[cfg(feature = "verif-hooks")]
+impl Endpoint {
+    /// The inner endpoint state (verification hook).
+    pub(crate) fn verif_inner(&self) -> &Arc<EndpointInner> {
+        &self.inner
+    }
+}
+
 /// Builder for [`Endpoint`].
 ///
 /// By default the endpoint will generate a new random [`SecretKey`], which will result in a
